@@ -61,6 +61,7 @@ type Frame struct {
 type listElemRef struct {
 	obj   int
 	entry ListEntry
+	reg   ssa.Value // the slice register the loop ranges over
 }
 
 type Obligation struct {
@@ -122,6 +123,24 @@ func (e *Engine) newObj(c *Ctx, o *Obj) int {
 // materialise forces the positional array of an appended slice (in place: Obj content is immutable otherwise, and the
 // result is a deterministic function of it, so caching inside the shared Obj is safe).
 func materialise(o *Obj) *Obj {
+	if o.Val == nil && o.Thunk == nil && o.HasList {
+		// a list without history (a sorted list): position j holds the entry that is present and preceded by j present ones
+		n := len(o.List)
+		el := make([]Value, n)
+		for j := range el {
+			el[j] = o.ElemZ
+		}
+		var before *Term = BV(64, 0)
+		for i := 0; i < n; i++ {
+			en := o.List[i]
+			for j := 0; j <= i; j++ {
+				el[j] = mergeV(And(en.G, Eq(before, BV(64, uint64(j)))), en.V, el[j])
+			}
+			before = Add(before, Ite(en.G, BV(64, 1), BV(64, 0)))
+		}
+		o.Val = ArrayV{el}
+		return o
+	}
 	if o.Val != nil || o.Thunk == nil {
 		return o
 	}
@@ -217,16 +236,122 @@ func (e *Engine) arr(c *Ctx, id int) ArrayV {
 	return materialise(c.S.Heap[id]).Val.(ArrayV)
 }
 
+// listCount: the number of present entries. The sum is built in a canonical order (by guard), so that a permutation of
+// the list (sort) has the very same length term.
 func listCount(l []ListEntry) *Term {
 	var t *Term = BV(64, 0)
 	lo := 0
+	gs := make([]*Term, 0, len(l))
 	for _, en := range l {
-		t = Add(t, Ite(en.G, BV(64, 1), BV(64, 0)))
+		gs = append(gs, en.G)
 		if en.G.IsTrue() {
 			lo++
 		}
 	}
+	sort.SliceStable(gs, func(i, j int) bool { return gs[i].id < gs[j].id })
+	for _, g := range gs {
+		t = Add(t, Ite(g, BV(64, 1), BV(64, 0)))
+	}
 	return withIv(t, uint64(lo), uint64(len(l)))
+}
+
+// sortGuarded: sort.Sort on a guarded list whose comparator gives a constant answer for every pair of candidate
+// elements (e.g. concrete keys under symbolic presence guards): the sorted list is the same candidates in sorted order,
+// each under its own guard. Returns false when it does not apply (the caller falls back to the positional model).
+func (e *Engine) sortGuarded(fr *Frame, c *Ctx, sv SliceV, et types.Type, less *ssa.Function) bool {
+	any := false
+	for _, a := range sv.Alts {
+		if a.Obj == -1 || a.G.IsFalse() {
+			continue
+		}
+		o := c.S.Heap[a.Obj]
+		if !(o.HasList && a.Off == 0 && a.Len == listCount(o.List)) {
+			if DebugFlat {
+				fmt.Printf("    [sort-guarded] not applied in %s: alternative not in list form (haslist %v off %d)\n", fr.Fn.String(), o.HasList, a.Off)
+			}
+			return false
+		}
+		any = true
+	}
+	if !any {
+		return true
+	}
+	view := e.listView(c, sv, et)
+	n := len(view)
+	if n < 2 {
+		return true
+	}
+	if DebugFlat {
+		fmt.Printf("    [sort-guarded] %d alternatives, %d candidates:\n", len(sv.Alts), n)
+		for _, en := range view {
+			fmt.Printf("        u%d const-guard=%v %s\n", en.U, en.G.IsConst(), showV(en.V))
+		}
+	}
+	ok := true
+	cmp := func(x, y Value) bool {
+		if !ok {
+			return false
+		}
+		id := e.newObj(c, &Obj{Val: ArrayV{[]Value{x, y}}})
+		tmp := SliceV{[]SliceAlt{{TTrue, id, 0, BV(64, 2), 2}}}
+		v, nc := e.call(fr, c, less, []Value{tmp, IntV{BV(64, 0)}, IntV{BV(64, 1)}}, nil)
+		if nc == nil {
+			ok = false
+			return false
+		}
+		c.S = nc.S
+		b := v.(BoolV).T
+		if !b.IsConst() {
+			if DebugFlat {
+				fmt.Printf("    [sort-guarded] comparator not constant on %s vs %s\n", showV(x), showV(y))
+			}
+			ok = false
+			return false
+		}
+		return b.IsTrue()
+	}
+	perm := make([]int, n)
+	for i := range perm {
+		perm[i] = i
+	}
+	// insertion sort (stable; the comparator is called on candidate pairs only)
+	for i := 1; i < n && ok; i++ {
+		for j := i; j > 0 && ok && cmp(view[perm[j]].V, view[perm[j-1]].V); j-- {
+			perm[j], perm[j-1] = perm[j-1], perm[j]
+		}
+	}
+	if !ok {
+		if DebugFlat {
+			fmt.Printf("    [sort-guarded] not applied in %s: comparator not constant on %d candidates\n", fr.Fn.String(), n)
+		}
+		return false
+	}
+	if DebugFlat {
+		fmt.Printf("    [sort-guarded] applied in %s: %d candidates\n", fr.Fn.String(), n)
+	}
+	newUID := map[int]int{}
+	for _, pi := range perm {
+		newUID[view[pi].U] = freshUID()
+	}
+	done := map[int]bool{}
+	for _, a := range sv.Alts {
+		if a.Obj == -1 || a.G.IsFalse() || done[a.Obj] {
+			continue
+		}
+		done[a.Obj] = true
+		o := c.S.Heap[a.Obj]
+		nl := make([]ListEntry, 0, len(o.List))
+		for _, en := range o.List {
+			u, known := newUID[en.U]
+			if !known {
+				u = freshUID() // an entry that is never present under this alternative's guard
+			}
+			nl = append(nl, ListEntry{en.G, en.V, u})
+		}
+		sort.SliceStable(nl, func(i, j int) bool { return nl[i].U < nl[j].U })
+		c.S.Heap[a.Obj] = &Obj{List: nl, HasList: true, ElemZ: o.ElemZ, Epoch: o.Epoch}
+	}
+	return true
 }
 
 
@@ -932,6 +1057,12 @@ func (e *Engine) rangeMap(c *Ctx, m MapV) IterV {
 	if e.MapOrderND {
 		e.permuteCands(c, it)
 	}
+	if DebugFlat && strings.Contains(curFn, "DepthFirst") {
+		fmt.Printf("    [range-map] in %s: %d alternatives, %d candidates\n", curFn, len(m.Alts), len(it.Cands))
+		for i, cd := range it.Cands {
+			fmt.Printf("        cand %d obj %d tomb=%v const-guard=%v key %s\n", i, it.CandObj[i], cd.Tomb, cd.G.IsConst(), showV(cd.K))
+		}
+	}
 	return IterV{e.newObj(c, it)}
 }
 
@@ -962,46 +1093,58 @@ func (e *Engine) permuteCands(c *Ctx, it *Obj) {
 		}
 		live = append(live, liveEnt{g, cand, it.CandObj[i]})
 	}
-	n := len(live)
-	if n <= 1 {
+	if len(live) <= 1 {
 		return
 	}
-	if n > 4 {
-		unsup("symbolic map iteration order over more than 4 live entries (%d)", n)
-	}
+	// the alternatives of a merged map value are exclusive: each one gets its own permutation
+	var order []int
+	groups := map[int][]liveEnt{}
 	for _, l := range live {
-		if l.obj != live[0].obj {
-			unsup("symbolic map iteration order over a map value with several alternatives")
+		if _, ok := groups[l.obj]; !ok {
+			order = append(order, l.obj)
 		}
-	}
-	e.permSite++
-	p := make([]*Term, n)
-	for i := range p {
-		p[i] = Var(fmt.Sprintf("perm!%s!%d!%d", e.MapOrderLabel, e.permSite, i), 8)
-		p[i].hasIv, p[i].lo, p[i].hi = true, 0, uint64(n-1)
-		c.S.PC = And(c.S.PC, mk(&Term{op: OUle, args: []*Term{p[i], BV(8, uint64(n-1))}}))
-	}
-	for i := 0; i < n; i++ {
-		for j := i + 1; j < n; j++ {
-			c.S.PC = And(c.S.PC, Not(Eq(p[i], p[j])))
-		}
+		groups[l.obj] = append(groups[l.obj], l)
 	}
 	var cands []MapEntry
 	var objs []int
-	for i := 0; i < n; i++ {
-		var g *Term = TFalse
-		var k, v Value
-		for j := n - 1; j >= 0; j-- {
-			sel := Eq(p[i], BV(8, uint64(j)))
-			g = Ite(sel, live[j].g, g)
-			if k == nil {
-				k, v = live[j].en.K, live[j].en.V
-			} else {
-				k, v = mergeV(sel, live[j].en.K, k), mergeV(sel, live[j].en.V, v)
+	for _, ob := range order {
+		grp := groups[ob]
+		n := len(grp)
+		if n > 4 {
+			unsup("symbolic map iteration order over more than 4 live entries (%d)", n)
+		}
+		if n == 1 {
+			cands = append(cands, MapEntry{G: grp[0].g, K: grp[0].en.K, V: grp[0].en.V})
+			objs = append(objs, ob)
+			continue
+		}
+		e.permSite++
+		p := make([]*Term, n)
+		for i := range p {
+			p[i] = Var(fmt.Sprintf("perm!%s!%d!%d", e.MapOrderLabel, e.permSite, i), 8)
+			p[i].hasIv, p[i].lo, p[i].hi = true, 0, uint64(n-1)
+			c.S.PC = And(c.S.PC, mk(&Term{op: OUle, args: []*Term{p[i], BV(8, uint64(n-1))}}))
+		}
+		for i := 0; i < n; i++ {
+			for j := i + 1; j < n; j++ {
+				c.S.PC = And(c.S.PC, Not(Eq(p[i], p[j])))
 			}
 		}
-		cands = append(cands, MapEntry{G: g, K: k, V: v})
-		objs = append(objs, live[0].obj)
+		for i := 0; i < n; i++ {
+			var g *Term = TFalse
+			var k, v Value
+			for j := n - 1; j >= 0; j-- {
+				sel := Eq(p[i], BV(8, uint64(j)))
+				g = Ite(sel, grp[j].g, g)
+				if k == nil {
+					k, v = grp[j].en.K, grp[j].en.V
+				} else {
+					k, v = mergeV(sel, grp[j].en.K, k), mergeV(sel, grp[j].en.V, v)
+				}
+			}
+			cands = append(cands, MapEntry{G: g, K: k, V: v})
+			objs = append(objs, ob)
+		}
 	}
 	it.Cands, it.CandObj, it.Perm = cands, objs, true
 }
@@ -1090,11 +1233,37 @@ func (e *Engine) nextMapZ(c *Ctx, itv IterV, kz, vz Value) TupleV {
 // ---------- strings ----------
 
 func strConcat(a, b StrV) StrV {
-	if a.B == nil && a.Ch != nil {
-		return mergeV(a.Ch.C, strConcat(a.Ch.A, b), strConcat(a.Ch.B, b)).(StrV)
-	}
-	if b.B == nil && b.Ch != nil {
-		return mergeV(b.Ch.C, strConcat(a, b.Ch.A), strConcat(a, b.Ch.B)).(StrV)
+	if (a.B == nil && a.Ch != nil) || (b.B == nil && b.Ch != nil) {
+		// lazily merged operands: concatenate leaf by leaf (one flattening of each operand, not one per nesting level)
+		var aa, bb, out []strAlt
+		strAlts(a, TTrue, &aa)
+		strAlts(b, TTrue, &bb)
+		if DebugFlat && len(aa)*len(bb) > 30 {
+			x0, _ := aa[0].S.Concrete()
+			x1, _ := aa[len(aa)-1].S.Concrete()
+			fmt.Printf("    [concat] in %s: %d x %d leaves, e.g. %q .. %q\n", curFn, len(aa), len(bb), x0, x1)
+		}
+		for _, x := range aa {
+			for _, y := range bb {
+				g := And(x.G, y.G)
+				if g.IsFalse() {
+					continue
+				}
+				leaf := strConcat(x.S, y.S)
+				merged := false
+				for i := range out {
+					if sameLeaf(out[i].S, leaf) {
+						out[i].G = Or(out[i].G, g)
+						merged = true
+						break
+					}
+				}
+				if !merged {
+					out = append(out, strAlt{g, leaf})
+				}
+			}
+		}
+		return mkChoice(out)
 	}
 	if a.R != nil && b.R != nil {
 		r := ropeConcat(a.R, b.R)
@@ -1307,10 +1476,34 @@ func (e *Engine) execFrom(fr *Frame, c *Ctx, b *ssa.BasicBlock, stops []*ssa.Bas
 				continue
 			}
 		}
-		if nx, ok := b.Instrs[nphi].(*ssa.Next); ok && !nx.IsString {
+		var iterCall *ssa.Call
+		if cl, ok := b.Instrs[nphi].(*ssa.Call); ok && start <= nphi {
+			if fn := cl.Call.StaticCallee(); fn != nil && fn.String() == "(*github.com/go-openapi/analysis/internal/flatten/sortref.mapIterator).Next" {
+				if _, isIf := b.Instrs[len(b.Instrs)-1].(*ssa.If); isIf {
+					iterCall = cl
+				}
+			}
+		}
+		var iterEsc arrivals
+		var iterCtx *Ctx
+		if iterCall != nil {
+			var handled bool
+			iterCtx, iterEsc, handled = e.guardedIterCall(fr, c, b, nphi, iterCall, stops)
+			if DebugFlat {
+				fmt.Printf("    [guarded-iter-call] in %s: handled %v\n", fr.Fn.String(), handled)
+			}
+			if !handled {
+				iterCall = nil
+			}
+		}
+		if nx, ok := b.Instrs[nphi].(*ssa.Next); (ok && !nx.IsString) || iterCall != nil {
 			// guarded iteration over a map: visit candidates in log order, each under its effectiveness guard
 			var esc arrivals
-			c, esc = e.guardedRange(fr, c, b, nphi, nx, stops)
+			if iterCall != nil {
+				c, esc = iterCtx, iterEsc
+			} else {
+				c, esc = e.guardedRange(fr, c, b, nphi, nx, stops)
+			}
 			for blk, x := range esc {
 				if inStops(stops, blk) {
 					out = e.addArrival(out, blk, x)
@@ -1569,7 +1762,7 @@ func (e *Engine) step(fr *Frame, c *Ctx, in ssa.Instruction) bool {
 		c.Regs[x] = e.get(c, x.X).(StructV).F[x.Field]
 	case *ssa.IndexAddr:
 		if ref, ok := fr.listElem[x.Index]; ok {
-			if sv, ok := e.get(c, x.X).(SliceV); ok && len(sv.Alts) == 1 && sv.Alts[0].Obj == ref.obj {
+			if sv, ok := e.get(c, x.X).(SliceV); ok && (len(sv.Alts) == 1 && sv.Alts[0].Obj == ref.obj || ref.obj < -1 && x.X == ref.reg) {
 				// the element of the current guarded iteration (read through a private cell)
 				id := e.newObj(c, &Obj{Val: ArrayV{[]Value{ref.entry.V}}})
 				c.Regs[x] = PtrV{[]PtrAlt{{G: TTrue, Obj: id, Path: []int{0}}}}
@@ -1666,14 +1859,17 @@ func (e *Engine) step(fr *Frame, c *Ctx, in ssa.Instruction) bool {
 	case *ssa.MakeSlice:
 		ln := e.get(c, x.Len).(IntV).T
 		cp := e.get(c, x.Cap).(IntV).T
+		inexact := false
 		if !cp.IsConst() {
 			if !cp.hasIv {
 				unsup("MakeSlice with unbounded symbolic capacity")
 			}
 			cp = BV(64, cp.hi)
+			inexact = true
 		}
 		if !ln.IsConst() && ln.hasIv && ln.hi > cp.val {
 			cp = BV(64, ln.hi)
+			inexact = true
 		}
 		et := x.Type().Underlying().(*types.Slice).Elem()
 		n := int(cp.val)
@@ -1681,7 +1877,7 @@ func (e *Engine) step(fr *Frame, c *Ctx, in ssa.Instruction) bool {
 		for i := range el {
 			el[i] = zero(et)
 		}
-		id := e.newObj(c, &Obj{Val: ArrayV{el}})
+		id := e.newObj(c, &Obj{Val: ArrayV{el}, CapInexact: inexact})
 		c.Regs[x] = SliceV{[]SliceAlt{{TTrue, id, 0, Resize(ln, 64, true), n}}}
 	case *ssa.MakeClosure:
 		fv := FuncV{Fn: x.Fn.(*ssa.Function)}
@@ -2235,6 +2431,39 @@ func (e *Engine) appendSlice(c *Ctx, s SliceV, more Value, et types.Type) Value 
 			l = append(l, ListEntry{Ult(BV(64, uint64(i)), f.Len), IntV{b}, freshUID()})
 		}
 	}
+	// append to a slice with spare capacity writes into the existing backing array: when that array existed at the
+	// freeze this is a write to shared memory (the capacity is exact for arrays and make(), not for append-built slices)
+	if e.frozen > 0 {
+		var moreLen *Term
+		switch m := more.(type) {
+		case SliceV:
+			for _, ma := range m.Alts {
+				if ma.Obj == -1 {
+					continue
+				}
+				t := Ite(ma.G, ma.Len, BV(64, 0))
+				if moreLen == nil {
+					moreLen = t
+				} else {
+					moreLen = Add(moreLen, t)
+				}
+			}
+		case StrV:
+			moreLen = fl(m).Len
+		}
+		for _, a := range s.Alts {
+			if a.Obj == -1 || moreLen == nil {
+				continue
+			}
+			o := c.S.Heap[a.Obj]
+			if o.Epoch < e.frozen && !o.HasList && o.Thunk == nil && !o.CapInexact && o.Val != nil {
+				cond := And(c.S.PC, a.G, Ult(a.Len, BV(64, uint64(a.Cap))), Not(Eq(moreLen, BV(64, 0))))
+				if !cond.IsFalse() {
+					e.Obls = append(e.Obls, Obligation{Kind: "frozen-write", ID: "append into the spare capacity of a slice that existed at the freeze", Cond: cond})
+				}
+			}
+		}
+	}
 	th := &appThunk{}
 	mk := func(sv SliceV) []thunkAlt {
 		var out []thunkAlt
@@ -2348,6 +2577,60 @@ func (e *Engine) invoke(fr *Frame, c *Ctx, x *ssa.Call) (Value, *Ctx, bool) {
 func (e *Engine) guardedRange(fr *Frame, c *Ctx, b *ssa.BasicBlock, k int, nx *ssa.Next, stops []*ssa.BasicBlock) (*Ctx, arrivals) {
 	mt := nx.Iter.(*ssa.Range).X.Type().Underlying().(*types.Map)
 	itv := e.get(c, nx.Iter).(IterV)
+	return e.guardedIter(fr, c, b, k, itv, stops, func(cx *Ctx, ok bool, key, val Value) {
+		if ok {
+			cx.Regs[nx] = TupleV{[]Value{BoolV{TTrue}, key, val}}
+		} else {
+			cx.Regs[nx] = TupleV{[]Value{BoolV{TFalse}, zero(mt.Key()), zero(mt.Elem())}}
+		}
+	})
+}
+
+// guardedIterCall: the loop `for it.Next() { k := it.Key() ... }` of sortref's reflect-based map iterator, run
+// candidate by candidate like a native map range (the current entry is published in the iterator's cell)
+func (e *Engine) guardedIterCall(fr *Frame, c *Ctx, b *ssa.BasicBlock, k int, call *ssa.Call, stops []*ssa.BasicBlock) (*Ctx, arrivals, bool) {
+	recv, ok := e.get(c, call.Call.Args[0]).(PtrV)
+	if !ok || len(recv.Alts) != 1 || recv.Alts[0].Obj < 0 {
+		return dbgGIC(1)
+	}
+	mi, ok := e.load(c, recv, "mapIterator.Next").(StructV)
+	if !ok {
+		return dbgGIC(2)
+	}
+	var cellPtr PtrV
+	ok = false
+	for _, f := range mi.F {
+		if pv, isP := f.(PtrV); isP {
+			cellPtr, ok = pv, true
+		}
+	}
+	if !ok || len(cellPtr.Alts) != 1 || cellPtr.Alts[0].Obj < 0 {
+		return dbgGIC(3)
+	}
+	cellObj := cellPtr.Alts[0].Obj
+	cell, ok := c.S.Heap[cellObj].Val.(StructV)
+	if !ok || len(cell.F) != 2 {
+		return dbgGIC(4)
+	}
+	itv, ok := cell.F[0].(IterV)
+	if !ok {
+		return dbgGIC(5)
+	}
+	if cur := c.S.Heap[itv.Obj].Cur; len(cur) != 1 || cur[0].Idx != 0 {
+		return dbgGIC(6) // the iteration has already started positionally
+	}
+	out, esc := e.guardedIter(fr, c, b, k, itv, stops, func(cx *Ctx, ok bool, key, val Value) {
+		if ok {
+			cx.S.Heap[cellObj] = &Obj{Val: StructV{[]Value{itv, TupleV{[]Value{BoolV{TTrue}, key, val}}}}, Epoch: cx.S.Heap[cellObj].Epoch}
+			cx.Regs[call] = BoolV{TTrue}
+		} else {
+			cx.Regs[call] = BoolV{TFalse}
+		}
+	})
+	return out, esc, true
+}
+
+func (e *Engine) guardedIter(fr *Frame, c *Ctx, b *ssa.BasicBlock, k int, itv IterV, stops []*ssa.BasicBlock, publish func(cx *Ctx, ok bool, key, val Value)) (*Ctx, arrivals) {
 	var esc arrivals
 	inner := append(append([]*ssa.BasicBlock(nil), stops...), b)
 	if _, ok := b.Instrs[len(b.Instrs)-1].(*ssa.If); ok && !inStops(inner, b.Succs[1]) {
@@ -2358,7 +2641,7 @@ func (e *Engine) guardedRange(fr *Frame, c *Ctx, b *ssa.BasicBlock, k int, nx *s
 		i := it.Cur[0].Idx
 		n := len(it.Cands)
 		if i >= n {
-			c.Regs[nx] = TupleV{[]Value{BoolV{TFalse}, zero(mt.Key()), zero(mt.Elem())}}
+			publish(c, false, nil, nil)
 			return c, esc
 		}
 		// effectiveness of candidate i: last snapshot write of its key, and still present
@@ -2401,7 +2684,7 @@ func (e *Engine) guardedRange(fr *Frame, c *Ctx, b *ssa.BasicBlock, k int, nx *s
 		}
 		e.Forks++
 		cA := c.fork(g)
-		cA.Regs[nx] = TupleV{[]Value{BoolV{TTrue}, cand.K, val}}
+		publish(cA, true, cand.K, val)
 		cA.Prev = nil
 		arr := e.execFrom(fr, cA, b, inner, k+1)
 		rA := arr[b]
@@ -2502,21 +2785,52 @@ func (e *Engine) guardedSliceRange(fr *Frame, c *Ctx, b *ssa.BasicBlock, stops [
 	}
 	sliceReg := lenCall.Call.Args[0]
 	sv, ok := c.Regs[sliceReg].(SliceV)
-	if !ok || len(sv.Alts) != 1 || sv.Alts[0].Obj < 0 || sv.Alts[0].Off != 0 {
-		return nil, false, nil
+	if !ok || len(sv.Alts) == 0 {
+		return dbgGSR(fr, 1)
 	}
-	o := c.S.Heap[sv.Alts[0].Obj]
-	if o == nil || !o.HasList || sv.Alts[0].Len != listCount(o.List) {
-		return nil, false, nil
+	// every alternative is nil or a list in list form; several alternatives are combined by append-event id (listView)
+	objKey := -1
+	for _, a := range sv.Alts {
+		if a.G.IsFalse() {
+			continue
+		}
+		if a.Obj < 0 {
+			if len(sv.Alts) == 1 {
+				return dbgGSR(fr, 2)
+			}
+			continue
+		}
+		ao := c.S.Heap[a.Obj]
+		if a.Len.IsConst() && a.Len.val == 0 && len(sv.Alts) > 1 {
+			continue // an empty alternative (e.g. the slice before the first append)
+		}
+		if a.Off != 0 || ao == nil || !ao.HasList || a.Len != listCount(ao.List) {
+			return dbgGSR(fr, 3)
+		}
+		objKey = a.Obj
+	}
+	if objKey < 0 {
+		return dbgGSR(fr, 4)
+	}
+	var list []ListEntry
+	if len(sv.Alts) == 1 {
+		list = c.S.Heap[objKey].List
+	} else {
+		st, isS := sliceReg.Type().Underlying().(*types.Slice)
+		if !isS {
+			return dbgGSR(fr, 5)
+		}
+		list = e.listView(c, sv, st.Elem())
+		objKey = -2 - int(sliceReg.Pos()) // a key private to this slice value (several objects)
 	}
 	symbolic := false
-	for _, en := range o.List {
+	for _, en := range list {
 		if !en.G.IsTrue() {
 			symbolic = true
 		}
 	}
 	if !symbolic {
-		return nil, false, nil
+		return dbgGSR(fr, 6)
 	}
 	// the index may only be used to read elements of this very slice
 	for _, ref := range *inc.Referrers() {
@@ -2524,17 +2838,17 @@ func (e *Engine) guardedSliceRange(fr *Frame, c *Ctx, b *ssa.BasicBlock, stops [
 		case *ssa.Phi, *ssa.BinOp, *ssa.Convert, *ssa.MakeInterface, *ssa.DebugRef:
 		case *ssa.IndexAddr:
 			if u.X != sliceReg {
-				return nil, false, nil
+				return dbgGSR(fr, 7)
 			}
 			for _, r2 := range *u.Referrers() {
 				if uo, ok := r2.(*ssa.UnOp); !ok || uo.Op != token.MUL {
 					if _, dbg := r2.(*ssa.DebugRef); !dbg {
-						return nil, false, nil
+						return dbgGSR(fr, 8)
 					}
 				}
 			}
 		default:
-			return nil, false, nil
+			return dbgGSR(fr, 9)
 		}
 	}
 	body, exit := b.Succs[0], b.Succs[1]
@@ -2547,7 +2861,7 @@ func (e *Engine) guardedSliceRange(fr *Frame, c *Ctx, b *ssa.BasicBlock, stops [
 	}
 	var esc arrivals
 	var pos *Term = BV(64, 0)
-	for _, en := range o.List {
+	for _, en := range list {
 		g := en.G
 		if g.IsFalse() || And(c.S.PC, g).IsFalse() {
 			continue
@@ -2559,7 +2873,7 @@ func (e *Engine) guardedSliceRange(fr *Frame, c *Ctx, b *ssa.BasicBlock, stops [
 		cA.Regs[lss] = BoolV{TTrue}
 		cA.Prev = b
 		prev, had := fr.listElem[inc]
-		fr.listElem[inc] = listElemRef{sv.Alts[0].Obj, en}
+		fr.listElem[inc] = listElemRef{objKey, en, sliceReg}
 		arr := e.execFrom(fr, cA, body, inner, -1)
 		if had {
 			fr.listElem[inc] = prev
@@ -2594,6 +2908,13 @@ func (e *Engine) guardedSliceRange(fr *Frame, c *Ctx, b *ssa.BasicBlock, stops [
 	return c, true, esc
 }
 
+func dbgGSR(fr *Frame, why int) (*Ctx, bool, arrivals) {
+	if DebugFlat {
+		fmt.Printf("    [guarded-slice-range] not applied in %s: reason %d\n", fr.Fn.String(), why)
+	}
+	return nil, false, nil
+}
+
 // strLess: a < b (bytewise lexicographic), distributing over the alternatives of lazily merged strings
 func strLess(a, b StrV) *Term {
 	var la, lb []strAlt
@@ -2625,3 +2946,45 @@ func leafLess(a, b StrV) *Term {
 }
 
 var curSliceFn string
+
+// showV: a short rendering of a value for debug output
+func showV(v Value) string {
+	switch x := v.(type) {
+	case StrV:
+		if cs, ok := x.Concrete(); ok {
+			return fmt.Sprintf("%q", cs)
+		}
+		if x.B == nil && x.Ch != nil {
+			var alts []strAlt
+			strAlts(x, TTrue, &alts)
+			out := "<choice"
+			for _, a := range alts {
+				out += " " + showV(a.S)
+			}
+			return out + ">"
+		}
+		return fmt.Sprintf("<string rope=%v>", x.R != nil)
+	case IntV:
+		if x.T.IsConst() {
+			return fmt.Sprint(x.T.val)
+		}
+		return "<int>"
+	case StructV:
+		out := "{"
+		for i, f := range x.F {
+			if i > 0 {
+				out += " "
+			}
+			out += showV(f)
+		}
+		return out + "}"
+	}
+	return fmt.Sprintf("<%T>", v)
+}
+
+func dbgGIC(why int) (*Ctx, arrivals, bool) {
+	if DebugFlat {
+		fmt.Printf("    [guarded-iter-call] reason %d\n", why)
+	}
+	return nil, nil, false
+}
